@@ -2,8 +2,10 @@
 """usage: seed_archive.py NN k 'needs' 'result line'  -- copies a confirmed seeded change into /verif/seeded/C<NN>-<k>/"""
 import json, os, shutil, sys
 nn, k, needs, result = sys.argv[1], sys.argv[2], sys.argv[3], sys.argv[4]
-src = f"/tmp/seed-c{nn}-out"
-dst = f"/verif/seeded/C{nn}-{k}"
+pfx = os.environ.get("SEEDPFX", "seed")
+off = int(os.environ.get("SEEDOFF", "0"))
+src = f"/tmp/{pfx}-c{nn}-out"
+dst = f"/verif/seeded/C{nn}-{int(k)+off}"
 shutil.rmtree(dst, ignore_errors=True)
 os.makedirs(dst)
 shutil.copy(f"{src}/change-{k}.diff", f"{dst}/patch.diff")
